@@ -816,6 +816,22 @@ def cpl(c, F, G = None, h = None, dims = None, A = None, b = None,
                 except ArithmeticError: 
                      singular_kkt_matrix = True
 
+                     # The statistics returned below must describe the
+                     # restored iterate.
+                     resy = math.sqrt(ydot(ry, ry))
+                     reszl = misc.snrm2(rzl, dims)
+                     pcost = xdot(c,x)
+                     dcost = pcost + ydot(y, ry) + blas.dot(z[:mnl], rznl) \
+                         + misc.sdot(z[mnl:], rzl, dims) - gap
+                     if pcost < 0.0:
+                         relgap = gap / -pcost
+                     elif dcost > 0.0:
+                         relgap = gap / dcost
+                     else:
+                         relgap = None
+                     pres = math.sqrt( resy**2 + resznl**2 + reszl**2 ) / pres0
+                     dres = resx / dres0
+
             else:  
                  singular_kkt_matrix = True
 
